@@ -26,6 +26,8 @@ func main() {
 		rc = cmdReplay(os.Args[2:])
 	case "axioms":
 		rc = cmdAxioms(os.Args[2:])
+	case "rtc":
+		rc = cmdRtc(os.Args[2:])
 	default:
 		fmt.Fprintln(os.Stderr, "unknown command", os.Args[1])
 	}
@@ -52,6 +54,9 @@ type Run struct {
 	assumed []string
 	tier  string
 	prop  string
+	rtc         []*rtcFunc
+	rtcSelected map[string]bool
+	rtcNotes    []string
 }
 
 func generate(repo string) (*Run, error) {
@@ -91,6 +96,9 @@ func generate(repo string) (*Run, error) {
 			r.obls = append(r.obls, ob)
 			r.owner[ob] = fc
 		}
+	}
+	for _, c := range w.cs.Contracts {
+		r.rtc = append(r.rtc, w.newRtcFunc(c))
 	}
 	for _, rl := range w.cs.RegLemmas {
 		r.obls = append(r.obls, r.regLemmaObligation(pkgShort(rl.Pkg)+".reglemma/"+rl.Name, rl.Tags, rl.Text, "regular-language lemma over the pattern literals of the current source"))
@@ -210,6 +218,38 @@ func cmdCheck(args []string) int {
 	}
 	extra := r.extraObligations(prop, *tier)
 	sel = append(sel, extra...)
+	if os.Getenv("GOVC_NO_RTC") == "" {
+		selFuncs, selExterns, selLemmas := map[string]bool{}, map[string]bool{}, map[string]bool{}
+		for _, ob := range sel {
+			selFuncs[ob.Func] = true
+		}
+		for _, fc := range r.fcs {
+			if !selFuncs[fc.qname] {
+				continue
+			}
+			for e := range fc.externs {
+				selExterns[e] = true
+			}
+			if fc.contract != nil {
+				for _, cl := range fc.contract.Clauses {
+					if strings.HasPrefix(cl.Kind, "use-") {
+						if i := strings.Index(cl.Text, "("); i > 0 {
+							n := strings.TrimSpace(cl.Text[:i])
+							if j := strings.LastIndex(n, "."); j >= 0 {
+								n = n[j+1:]
+							}
+							selLemmas[n] = true
+						}
+					}
+				}
+			}
+		}
+		for _, ob := range r.rtcObligations(prop, selFuncs, selExterns, selLemmas) {
+			if *only == "" || ob.Name == *only {
+				sel = append(sel, ob)
+			}
+		}
+	}
 	if *only == "" {
 		sel = append(sel, r.axiomProbeObligation(sel, prop))
 	}
@@ -237,9 +277,19 @@ func cmdCheck(args []string) int {
 	var solverMs int64
 	nObl, nDis, nCanary, nBounded, nBoundedOK, violations := 0, 0, 0, 0, 0, 0
 	axiomProbesRun := 0
+	var rtcIdle []string
 	backends := map[string]int{}
 	var boundedList []map[string]interface{}
 	var genErrors []string
+	// failing inputs found by the executable contracts, by function and clause label: a failed
+	// SMT obligation of the same clause borrows the input (the solvers give no model there)
+	rtcWitness := map[string]*Obligation{}
+	for _, ob := range sel {
+		if ob.Kind == "rtc" && ob.Status == "failed" && ob.Witness != "" {
+			parts := strings.Split(ob.Name, "/")
+			rtcWitness[ob.Func+"/"+parts[len(parts)-1]] = ob
+		}
+	}
 	for _, ob := range sel {
 		funcs[ob.Func] = true
 		solverMs += ob.Ms
@@ -253,6 +303,11 @@ func cmdCheck(args []string) int {
 				p, _ := maybeReplay(*noEvidence, &Replay{Property: prop, Obligation: ob.Name, Kind: ob.Kind, Description: ob.Descr, Status: "vacuous", SolverOut: ob.Detail, NoInput: true})
 				fmt.Printf("VIOLATION property=%s replay=%s no-failing-input-found\n", prop, p)
 			}
+			continue
+		}
+		if ob.Kind == "rtc" && ob.Status == "discharged" && ob.Cases == 0 {
+			// nothing was executed (ghost-state clause, function not runnable): says nothing
+			rtcIdle = append(rtcIdle, ob.Name+": "+ob.Detail)
 			continue
 		}
 		if ob.Bounded {
@@ -278,7 +333,7 @@ func cmdCheck(args []string) int {
 			continue
 		}
 		// failed
-		if kf := findingFor(kfs, prop, ob.Name); kf != nil {
+		if kf := findingFor(kfs, prop, ob.Name); kf != nil && (kf.Witness == "" || kf.Witness == ob.Witness) {
 			fmt.Printf("KNOWN-FINDING: property=%s obligation=%s %s\n", prop, ob.Name, kf.Text)
 			known = append(known, map[string]string{"obligation": ob.Name, "finding": kf.Text, "status": firstLine(ob.Detail)})
 			continue
@@ -287,6 +342,15 @@ func cmdCheck(args []string) int {
 			nObl++
 		}
 		violations++
+		if ob.Witness == "" && ob.Kind == "post" {
+			parts := strings.Split(ob.Name, "/")
+			if w := rtcWitness[ob.Func+"/"+parts[len(parts)-1]]; w != nil {
+				ob.Witness = w.Witness
+				ob.WitnessNote = "failing input found by running the real function against the same clause (" + w.Name + "): " + w.WitnessNote
+				ob.ReplayPkg = w.ReplayPkg
+				ob.Detail += "\nfailing input (executable contract " + w.Name + "): " + w.Witness
+			}
+		}
 		rp := &Replay{Property: prop, Obligation: ob.Name, Kind: ob.Kind, Description: ob.Descr, Position: ob.Pos, Status: ob.FailStatus, SolverOut: ob.Detail, Query: ob.FailText, NoInput: ob.Witness == "",
 			Witness: ob.Witness, WitnessNote: ob.WitnessNote, ReplayTest: ob.ReplayTest, ReplayPkg: ob.ReplayPkg}
 		p, _ := maybeReplay(*noEvidence, rp)
@@ -317,6 +381,12 @@ func cmdCheck(args []string) int {
 		for _, e := range sortedKeys(fc.externs) {
 			externs = append(externs, e)
 		}
+	}
+	for _, n := range r.rtcNotes {
+		notes = append(notes, "executable contracts: "+n)
+	}
+	for _, n := range rtcIdle {
+		notes = append(notes, "executable contracts: "+n)
 	}
 	for _, sf := range r.w.specList {
 		if sf.err != "" {
